@@ -284,6 +284,10 @@ def wrappers(tagger):
         "forof": lambda h: ("forof", 2, ("seq", [h, ("log", t("x"))])),
         "switch": lambda h: ("switch", 1, [(0, [("log", t("z"))]), (1, [("log", t("o")), h]), (None, [("log", t("df"))]), (2, [("log", t("tw"))])]),
         "switch-default": lambda h: ("switch", 9, [(0, [("log", t("z"))]), (None, [h, ("log", t("df"))]), (2, [("log", t("tw")), ("break", None)])]),
+        # the default clause is taken only when NO case matches, wherever it is written (ECMA-262 14.12.2 CaseBlockEvaluation)
+        "switch-default-before-match": lambda h: ("switch", 2, [(0, [("log", t("z"))]), (None, [("log", t("df"))]), (2, [("log", t("tw")), h]), (3, [("log", t("th"))])]),
+        "switch-default-first": lambda h: ("switch", 1, [(None, [("log", t("df"))]), (1, [("log", t("o")), h])]),
+        "switch-default-first-miss": lambda h: ("switch", 5, [(None, [("log", t("df")), h]), (1, [("log", t("o"))])]),
         "switch-nodefault-miss": lambda h: ("seq", [("switch", 7, [(0, [("log", t("z"))]), (1, [h, ("log", t("o"))])]), h]),
         "switch-nodefault-hit": lambda h: ("switch", 1, [(0, [("log", t("z"))]), (1, [h, ("log", t("o"))])]),
         "labelled-block": lambda h: ("label", "A", ("seq", [("log", t("lb")), h, ("log", t("la"))])),
